@@ -243,9 +243,8 @@ def check(prop, tier="quick", base_seed=None, workers=None, n_override=None, wal
 
 def minimise_and_save(driver, prop, r, v, key):
     """regenerate the failing run, shrink it, write the replay file, replay it in a fresh interpreter"""
-    if hasattr(driver, "minimise"):
-        rep = driver.minimise(r, v, key)
-    else:
+    rep = driver.minimise(r, v, key) if hasattr(driver, "minimise") else None
+    if rep is None:
         full = driver.run_one(r["seed"], want_plan=True)
         plan = full["plan"]
         if not any(x["key"] == key for x in full["viol"]):
